@@ -194,6 +194,8 @@ def term(ctx):
             inst = "api=%s,loop@bb%d" % (nme, h) if False else "api=%s" % nme
             v = variant(b, lp)
             if v is None:
+                v = semantic_variant(ctx, b, lp)
+            if v is None:
                 ck.violation("C10.term", inst, "free loop without a recognised variant",
                              where=F.site_str(b, bl[h]["term"]["sp"]))
             elif v[0] == "ok":
@@ -253,6 +255,98 @@ def variant(b, lp):
     return None
 
 
+def semantic_variant(ctx, b, lp):
+    """path form of the variant argument, independent of how the loop is spelled: the function is interpreted with the
+    loop widened; on every path that comes back to the header after the generic iteration some local x satisfies
+    x' = x + inc with inc >= 1 established on the path (constant, max(_, c >= 1), or a value the path tested to be
+    non-zero) or x' = x << k (k >= 1), and the generic iteration compared x with a constant (the exit test).
+    Returns ('ok', why) / ('bad', why, site) / None (nothing recognised)."""
+    facts = ctx.facts
+    h = min(lp["nodes"]) if "header" not in lp else lp["header"]
+    mp = M.MemPrims(facts)
+    pr = P.HandlerPrims(facts, ctx.roles)
+
+    def icpt(I, path, frame, t, name, args):
+        cb = facts.bodies.get(name)
+        if cb is not None and frame.body["path"] == b["path"] and cb.get("impl_self") == AXE and cb["kind"] != "Closure" \
+                and name not in pr.by_path:
+            # calls into the rest of the machine from the loop's function: succeed or fail, nothing else matters here
+            p2 = path.copy()
+            rt = cb["locals"][0]
+            if isinstance(rt, list) and rt[0] == "adt" and rt[1] == "std::result::Result":
+                return [(A.OK(("ret", name, (), len(path.events))), path), (A.ERR(("e",)), p2)]
+            return [(("ret", name, (), len(path.events)), path)]
+        return mp.intercept(I, path, frame, t, name, args) or pr.intercept(I, path, frame, t, name, args)
+    I = A.Interp(facts, intercept=icpt, max_paths=20000)
+    I.backedge_sink = []
+    args = []
+    for i in range(1, b["argc"] + 1):
+        ty = b["locals"][i]
+        if isinstance(ty, list) and ty[0] == "ref" and ty[2] == ["adt", AXE, []]:
+            args.append(P.self_ref(bool(ty[1])))
+        elif isinstance(ty, list) and ty[0] in ("u", "i"):
+            args.append(A.W(("param", i), 64))
+        else:
+            args.append(("param", i))
+    try:
+        list(I.run(b, args, A.Path()))
+    except Exception:  # noqa
+        return None
+    arrivals = [(fr, bb, p) for fr, bb, p in I.backedge_sink if fr.body["path"] == b["path"] and bb in lp["nodes"]]
+    if not arrivals:
+        return None
+    why = None
+    for fr, bb, p in arrivals:
+        w = p.tags.get(("widened", fr.fid, bb))
+        if w is None:
+            return None
+        tops, ncond = w
+        found = None
+        for l, top in tops.items():
+            new = p.store.get(("L", fr.fid, l))
+            if new is None or new == top:
+                continue
+            sn = U.strip(new)
+            # the exit test: the generic iteration compared x with a constant
+            tested = any(c[0][0] == "bin" and c[0][1] in A.CMP_OPS and U.strip(c[0][2]) == top and A.is_int(U.strip(c[0][3]))
+                         for c in p.conds[ncond:])
+            if not tested:
+                continue
+            if sn[0] == "bin" and sn[1] in ("Shl", "ShlUnchecked") and U.strip(sn[2]) == top and A.is_int(sn[3]) and sn[3][1] >= 1:
+                found = "x <<= %d" % sn[3][1]
+                break
+            d = U.affine_norm(("bin", "Sub", new, top, 64))
+            if not d[0]:
+                k = d[1] if d[1] < (1 << 63) else d[1] - (1 << 64)
+                if k >= 1:
+                    found = "x += %d" % k
+                    break
+                return ("bad", "loop variable advances by %d" % k, F.site_str(b, b["blocks"][bb]["term"]["sp"]))
+            if len(d[0]) == 1 and d[1] == 0 and list(d[0].values())[0] == 1:
+                inc = U.strip(list(d[0].keys())[0])
+                if inc[0] == "ret" and inc[1] == "max" and any(A.is_int(U.strip(a_)) and U.strip(a_)[1] >= 1 for a_ in inc[2]):
+                    found = "x += max(y, c) with c >= 1"
+                    break
+                nz = False
+                for c in p.conds:
+                    t = c[0]
+                    if t[0] == "bin" and U.strip(t[2]) == inc and A.is_int(U.strip(t[3])):
+                        kc = U.strip(t[3])[1]
+                        truth = (c[2] != 0) if c[1] == "==" else True
+                        if (t[1] == "Eq" and kc == 0 and not truth) or (t[1] == "Ne" and kc == 0 and truth) or \
+                                (t[1] == "Ge" and kc >= 1 and truth) or (t[1] == "Gt" and truth) or (t[1] == "Lt" and kc == 1 and not truth):
+                            nz = True
+                if nz:
+                    found = "x += y with y != 0 on this path"
+                    break
+                return ("bad", "loop variable advances by %s, which may be zero" % A.show(inc)[:40],
+                        F.site_str(b, b["blocks"][bb]["term"]["sp"]))
+        if found is None:
+            return None
+        why = why or found
+    return ("ok", why + " (every path back to the loop header)")
+
+
 def max_with_positive_const(b, op):
     """operand is the result of `max(y, c)` with a constant c >= 1"""
     if op[0] not in ("c", "m") or op[1][1]:
@@ -297,46 +391,160 @@ def positive_guard(b, lp, inc):
 
 # --------------------------------------------------------------------------- resize contents / fresh
 
+SIZE_CLASSES = (("new<old", 0, 1), ("new=old", 1, 1), ("new>old", 2, 1))
+
+
+def resize_runs(ctx):
+    """mem_resize_section interpreted over the byte-sequence model, once per class of the requested size against the
+    area's current length; per return path: (class, outcome, {element: {field: final value}}, path)"""
+    from .. import seqmodel as SQ
+    facts = ctx.facts
+    body = facts.method(AXE, "mem_resize_section")
+    NEW = ("new_size",)
+    out = []
+    unmodelled = []
+    for cname, nrank, orank in SIZE_CLASSES:
+        mp = M.MemPrims(facts)
+        atom = lambda v: v[0] == "field" and v[2] == "data"
+        sm = SQ.SeqMapPrims(facts, (), (), chain=mp.intercept, atom_pred=atom)
+
+        def rank(t, nrank=nrank, orank=orank):
+            t = U.strip(t)
+            if t == NEW:
+                return nrank
+            if t[0] == "len" and U.strip(t[1])[0] == "field" and U.strip(t[1])[2] == "data":
+                return orank
+            if t[0] == "field" and t[2] == "length":
+                return orank
+            return None
+
+        def oracle(path, op, x, y, rank=rank):
+            rx, ry = rank(x), rank(y)
+            if rx is None or ry is None:
+                return None
+            return int({"Eq": rx == ry, "Ne": rx != ry, "Lt": rx < ry, "Le": rx <= ry, "Gt": rx > ry, "Ge": rx >= ry}[op])
+        I = A.Interp(facts, intercept=sm.intercept, max_paths=50000)
+        I.cmp_oracle = oracle
+        outs = list(I.run(body, [P.self_ref(True), A.W(("start_addr",), 64), A.W(NEW, 64)], A.Path()))
+        unmodelled += sm.unmodelled
+        for o in outs:
+            if o.kind != "return":
+                continue
+            elems = {}
+            for e in o.path.events:
+                if e[0] not in ("store", "seqstore"):
+                    continue
+                loc = e[1]
+                fn = [p_[2] for p_ in loc[1] if isinstance(p_, tuple) and p_[0] == "f"]
+                if not fn or fn[-1] not in ("data", "length", "start", "access", "name"):
+                    continue
+                root = loc[0]
+                if root == M.AREA_ROOT:
+                    key = ("elem", "iterated")
+                elif root[0] == "D" and root[1][0] == "ret" and "ops::Index" in root[1][1]:
+                    key = ("elem", U.strip(root[1][2][1]))
+                else:
+                    key = ("elem", root)
+                elems.setdefault(key, {})[fn[-1]] = e[2]
+            out.append((cname, "err" if is_err(o) else "ok", elems, o.path))
+    return body, out, unmodelled
+
+
+def elem_of_atom(v):
+    """which element an old-data atom ('field', X, 'data') belongs to"""
+    x = v[1]
+    while x[0] in ("deref", "w"):
+        x = x[1]
+    if x == M.AREA:
+        return ("elem", "iterated")
+    if x[0] == "ret" and "ops::Index" in x[1]:
+        return ("elem", U.strip(x[2][1]))
+    return ("elem", x)
+
+
 def resize_copy(ctx):
-    ck, facts = ctx.check, ctx.facts
-    b = facts.method(AXE, "mem_resize_section")
-    bl = b["blocks"]
-    where = "%s:%d (mem_resize_section)" % (b["span"][0], b["span"][1])
+    """C10.resize / C10.atomic (and C08.invariant for the resize function), decided on the final values"""
+    from .. import seqmodel as SQ
+    ck = ctx.check
+    body, runs, unmodelled = resize_runs(ctx)
+    where = "%s:%d (mem_resize_section)" % (body["span"][0], body["span"][1])
     inst = "api=mem_resize_section"
-    copies = [i for i, x in enumerate(bl) if x["term"]["k"] == "call" and F.callee_name(x["term"]).endswith("::copy_from_slice")]
-    zeros = [i for i, x in enumerate(bl) if x["term"]["k"] == "call" and "from_elem" in F.callee_name(x["term"])]
-    mins = [i for i, x in enumerate(bl) if x["term"]["k"] == "call" and F.callee_name(x["term"]).endswith("::min")
-            and all("len_of" in str(C08.origin(b, a)) for a in x["term"]["args"])]
-    if len(copies) != 1 or len(zeros) != 1 or len(mins) != 1:
-        ck.violation("C10.resize", inst, "anchors: copy_from_slice=%d vec![0;n]=%d min=%d" % (len(copies), len(zeros), len(mins)),
-                     where=where, what="resize no longer builds a zero vector and copies the common prefix")
-        return
-    zt = bl[zeros[0]]["term"]
-    zero_elem = zt["args"][0]
-    zsize = C08.origin(b, zt["args"][1])
-    bad = None
-    if not (zero_elem[0] == "k" and zero_elem[1].get("v") == 0):
-        bad = "fill element is not 0"
-    if zsize != ("param", 3):
-        bad = bad or "zero vector sized by %s, not the requested size" % (zsize,)
-    # both slice ends are the min() result
-    mt = bl[mins[0]]["term"]
-    mloc = mt["dest"][0]
-    ma = sorted(str(C08.origin(b, a)) for a in mt["args"])
-    ct = bl[copies[0]]["term"]
-    ends = []
-    for a in ct["args"]:
-        ends.append(slice_end(b, a))
-    if any(e is None for e in ends):
-        bad = bad or "copy operands are not `[..n]` prefixes"
-    elif not all(e == ("local", mloc) for e in ends):
-        bad = bad or "prefix lengths %s are not the common min()" % (ends,)
-    if not all("len_of" in x for x in ma):
-        bad = bad or "min() not taken over the two lengths (%s)" % ma
-    if bad:
-        ck.violation("C10.resize", inst, bad, where=where, what="resize does not keep the common prefix / zero-fill growth")
-    else:
-        ck.ok("C10.resize", inst)
+    NEW = A.W(("new_size",), 64)
+    rbad = abad = ibad = None
+    nok = 0
+    if unmodelled:
+        ck.undecided_("C10.resize", inst, "vector call outside the sequence model: %s" % unmodelled[0])
+    for cname, outcome, elems, path in runs:
+        if outcome == "err":
+            if elems:
+                abad = abad or "%s: a refused resize has already changed %s of an area" % (
+                    cname, "/".join(sorted({f for fs in elems.values() for f in fs})))
+            continue
+        if unmodelled:
+            continue
+        if not elems and any(e[0] == "loop_widened" for e in path.events):
+            continue  # the change happened in an iteration the widening dropped; judged on the paths that show it
+        nok += 1
+        if len(elems) != 1:
+            rbad = rbad or "%s: a successful resize changes %d areas" % (cname, len(elems))
+            continue
+        key, fields = list(elems.items())[0]
+        if "start" in fields:
+            rbad = rbad or "the area's start is reassigned"
+        if "data" not in fields or "length" not in fields:
+            ibad = ibad or "only %s of the area is updated: length != data.len() afterwards" % "/".join(sorted(fields))
+            continue
+        if not U.affine_eq(fields["length"], NEW):
+            rbad = rbad or "%s: length := %s, requested %s" % (cname, A.show(U.strip(fields["length"]))[:40], "new_size")
+        data = fields["data"]
+        if not SQ.is_seq(data, lambda v: v[0] == "field" and v[2] == "data"):
+            rbad = rbad or "%s: new contents are not a byte-sequence expression of the old contents (%s)" % (cname, A.show(data)[:50])
+            continue
+        nf = SQ.normal_form(data)
+        atoms = [s_[0] for s_ in (nf or []) if s_[0] != SQ.ZERO]
+        old = atoms[0] if atoms else None
+        if nf is None:
+            rbad = rbad or "%s: new contents cannot be normalised" % cname
+            continue
+        if cname == "new=old" and old is not None:
+            nf = SQ.normal_form(data, {("new_size",): U.strip(SQ.seq_len(old))})
+        if any(a_[0] != "field" or elem_of_atom(a_) != key for a_ in atoms):
+            rbad = rbad or "%s: new contents come from another area" % cname
+            continue
+        # expected: old[..min(old_len, new)] ++ zeros(new - min)
+        if cname == "new>old":
+            want_shape = "old ++ zeros(new-old)"
+            okk = len(nf) == 2 and nf[0][0] == old and nf[0][1] == [{}, 0] and \
+                U.affine_eq_norm(nf[0][2], U.affine_norm(SQ.seq_len(old))) and nf[1][0] == SQ.ZERO and \
+                U.affine_eq_norm(nf[1][2], U.affine_norm(("bin", "Sub", NEW, SQ.seq_len(old), 64)))
+        elif cname == "new=old":
+            want_shape = "old"
+            okk = len(nf) == 1 and nf[0][0] == old and nf[0][1] == [{}, 0] and (
+                U.affine_eq_norm(nf[0][2], U.affine_norm(SQ.seq_len(old))) or U.affine_eq_norm(nf[0][2], U.affine_norm(NEW)))
+        else:
+            want_shape = "old[..new]"
+            okk = len(nf) == 1 and nf[0][0] == old and nf[0][1] == [{}, 0] and U.affine_eq_norm(nf[0][2], U.affine_norm(NEW))
+        if not okk:
+            rbad = rbad or "%s: contents become %s, expected %s" % (cname, SQ.show_nf(nf)[:120], want_shape)
+        # invariant: len(data) == length
+        ln = U.affine_norm(SQ.subst(SQ.seq_len(data), {}))
+        total = [{}, 0]
+        for s_ in nf:
+            total = SQ.aff_add(total, SQ.aff_add(s_[2], [{k: -c for k, c in s_[1][0].items()}, (-s_[1][1]) % (1 << 64)]))
+        if cname != "new=old" and not U.affine_eq_norm(total, U.affine_norm(fields["length"])):
+            ibad = ibad or "%s: data.len() = %s but length := %s" % (cname, SQ.show_aff(total), A.show(U.strip(fields["length"]))[:30])
+    if nok == 0 and not unmodelled:
+        rbad = rbad or "no successful resize path"
+    ck.cov["resize_paths"] = len(runs)
+    ck.floor("resize classes with a success path that shows the change", len({c for c, o_, e, p_ in runs if o_ == "ok" and e}), 3)
+    for rule, bad, what in (("C10.resize", rbad, "resize does not keep the common prefix / zero-fill growth"),
+                            ("C10.atomic", abad, "a refused resize leaves the area list changed: areas can overlap after the error"),
+                            ("C10.invariant", ibad, "resize leaves length != data.len()")):
+        if bad:
+            ck.violation(rule, inst, bad, where=where, what=what)
+        else:
+            ck.ok(rule, inst)
+    return ibad
 
 
 def slice_end(b, op):
